@@ -210,7 +210,9 @@ def run(ctx, only=None):
         for s in obs['samples']:
             ctx.sample(s)
         for f in obs['failures']:
-            ctx.violation(f'{f["cell"]}|numeric={int(job["_numeric"])}|{f["kind"]}|{f.get("sub", "")}',
+            fp = (f'{f["cause"]}|{f["kind"]}' if f.get('cause') else
+                  f'{f["cell"]}|numeric={int(job["_numeric"])}|{f["kind"]}|{f.get("sub", "")}')
+            ctx.violation(fp,
                           f'{f["cell"]} numeric={job["_numeric"]} valuation={f["val"]}: {f["kind"]}: {f["detail"]}',
                           dict(numeric=job['_numeric'], cells=[f['cell']]))
     if not only and total_traffic < 5000 and not ctx.violations:
